@@ -24,6 +24,7 @@ package main
 import (
 	"fmt"
 	"go/ast"
+	"math"
 	"math/big"
 	"sort"
 	"strings"
@@ -207,6 +208,7 @@ func (w *World) checkInterp(m *scoreModel, add func(ok bool, rule, inst string, 
 	}
 	sort.Strings(keys)
 	total, ties, negDist := 0, 0, 0
+	classVals := map[string]*big.Rat{} // distinct exact pre-rounding values
 	var minV, maxV *big.Rat
 	var minEx, maxEx, tieEx string
 	minGap := big.NewRat(1, 1) // distance of 10*value to the nearest half-integer, over non-ties
@@ -253,6 +255,7 @@ func (w *World) checkInterp(m *scoreModel, add func(ok bool, rule, inst string, 
 						if maxV == nil || v.Cmp(maxV) > 0 {
 							maxV, maxEx = v, desc
 						}
+						classVals[v.RatString()] = v
 						x10 := new(big.Rat).Mul(v, ten)
 						fr := new(big.Rat).Sub(x10, ratFloor(x10))
 						gap := new(big.Rat).Sub(fr, half)
@@ -275,13 +278,125 @@ func (w *World) checkInterp(m *scoreModel, add func(ok bool, rule, inst string, 
 	}
 	okRange := minV.Sign() >= 0 && maxV.Cmp(ten) <= 0 && negDist == 0
 	add(okRange, "R04.range", "Score.interp", fd, fmt.Sprintf("%d (MacroVector, achievable distance tuple) classes tabulated exactly: pre-rounding score in [%s, %s] (min at %s; max at %s); negative distances: %d", total, minV.FloatString(4), maxV.FloatString(4), minEx, maxEx, negDist))
-	// float stability: error of evaluating lookup − (Σ msd·d/(depth+1))/lower in float64 is below 1e-12
+	// R04.round: the rounding helper, evaluated under the float64 error model on
+	// every distinct exact value (the value reaches it with an evaluation error
+	// below 1e-12: lookup − (Σ msd·d/(depth+1))/lower is a dozen operations on
+	// numbers <= 10), returns exactly the half-up one-decimal rounding.
 	gapF, _ := minGap.Float64()
-	stable := gapF > 1e-9
-	det := fmt.Sprintf("%d of %d classes are exact x.x5 ties (not decided: the result of math.Round(x*10) there depends on float64 representation error; e.g. %s); for all other classes 10·value is at least %.3g away from a half-integer, far above any float64 evaluation error (< 1e-12), so the float64 code rounds them like exact arithmetic", ties, total, tieEx, gapF)
-	if ties == 0 {
-		det = fmt.Sprintf("no class is an exact x.x5 tie; 10·value is at least %.3g away from a half-integer for all %d classes, far above any float64 evaluation error (< 1e-12): the float64 code rounds like exact arithmetic", gapF, total)
+	if m.roundTree == nil {
+		add(true, "R04.float", "Score.interp", fd, "not decided in this run: rounding helper not recognised (reported by R04.round)")
+	} else {
+		root, err := compileF(m.roundTree, nil, nil, nil, nil)
+		if err != nil {
+			add(false, "R04.round", "round", m.roundFn, "cannot model the rounding helper (undecided): "+err.Error())
+		} else {
+			mono := monotoneTree(m.roundTree)
+			eps := big.NewRat(1, 100_000_000_000) // 1e-11 >> any float64 evaluation error of the pre-rounding value and of the helper's own operations
+			wrong, unstable := 0, 0
+			wrongEx, unstEx := "", ""
+			env := &rtEnv{}
+			for _, v := range classVals {
+				x10 := new(big.Rat).Mul(v, ten)
+				want := new(big.Rat).Quo(ratFloor(new(big.Rat).Add(x10, half)), ten)
+				if mono {
+					// a monotone helper maps the whole interval [v-eps, v+eps] between its images of the endpoints
+					lo, err1 := env.eval(m.roundTree, map[string]*big.Rat{"x": new(big.Rat).Sub(v, eps)}, nil)
+					hi, err2 := env.eval(m.roundTree, map[string]*big.Rat{"x": new(big.Rat).Add(v, eps)}, nil)
+					if err1 != nil || err2 != nil {
+						unstable++
+						continue
+					}
+					switch {
+					case lo.Cmp(hi) != 0:
+						unstable++
+						if unstEx == "" {
+							unstEx = fmt.Sprintf("exact value %s: values just below it give %s, values just above give %s", v.FloatString(6), lo.FloatString(1), hi.FloatString(1))
+						}
+					case lo.Cmp(want) != 0:
+						wrong++
+						if wrongEx == "" {
+							wrongEx = fmt.Sprintf("exact value %s is rounded to %s, half-up gives %s", v.FloatString(6), lo.FloatString(1), want.FloatString(1))
+						}
+					}
+					continue
+				}
+				f, _ := v.Float64()
+				st := fstats{}
+				r := root.eval(nil, fval{v: f, e: 1e-12}, &st)
+				wf, _ := want.Float64()
+				if st.unstable > 0 {
+					unstable++
+					if unstEx == "" {
+						unstEx = fmt.Sprintf("exact value %s (%s)", v.FloatString(6), st.why)
+					}
+					continue
+				}
+				if math.Abs(r.v-wf) > 1e-9 {
+					wrong++
+					if wrongEx == "" {
+						wrongEx = fmt.Sprintf("exact value %s is rounded to %.1f, half-up gives %.1f", v.FloatString(6), r.v, wf)
+					}
+				}
+			}
+			how := "float64 error model"
+			if mono {
+				how = "monotone helper, exact evaluation at value ± 1e-11"
+			}
+			switch {
+			case wrong > 0:
+				add(false, "R04.round", "round["+m.roundFn.Name.Name+"]", m.roundFn, fmt.Sprintf("%d of %d distinct pre-rounding values are not rounded half-up to one decimal, e.g. %s", wrong, len(classVals), wrongEx))
+			case unstable > 0:
+				add(false, "R04.round", "round["+m.roundFn.Name.Name+"]", m.roundFn, fmt.Sprintf("%d of %d distinct pre-rounding values are rounded half-up whatever the float64 evaluation error (%s); %d sit on a discontinuity of the helper (exact x.x5 ties: %d classes) whose required result is the upper tenth (half-up) — the helper returns the lower or the upper tenth depending on the sign of the float64 error of `lookup - mean`, so half-up rounding is not guaranteed (it demonstrably fails: see known-findings F2); e.g. %s", len(classVals)-unstable, len(classVals), how, unstable, ties, unstEx))
+			default:
+				add(true, "R04.round", "round["+m.roundFn.Name.Name+"]", m.roundFn, fmt.Sprintf("all %d distinct exact pre-rounding values (incl. the %d exact x.x5 tie classes) are rounded half-up to one decimal whatever the float64 evaluation error (%s)", len(classVals), ties, how))
+			}
+			add(true, "R04.float", "Score.interp", fd, fmt.Sprintf("%d classes; %d exact x.x5 ties; all other classes keep 10·value at least %.3g away from a half-integer", total, ties, gapF))
+		}
 	}
-	add(stable, "R04.float", "Score.interp", fd, det)
 	w.Extra["v4_interp"] = map[string]any{"classes": total, "exact_ties": ties, "min": minV.FloatString(6), "max": maxV.FloatString(6), "min_gap_to_half_integer": gapF}
+}
+
+// monotoneTree: the tree is a non-decreasing function of its argument x, by
+// construction from non-decreasing steps (rounding, truncation, positive
+// scaling, constant offsets).
+func monotoneTree(t *Ex) bool {
+	posConst := func(e *Ex) bool { return e.Op == "const" && e.C.Sign() > 0 }
+	switch t.Op {
+	case "const":
+		return true
+	case "sym":
+		return t.Name == "x"
+	case "sum":
+		for _, a := range t.Args {
+			if !monotoneTree(a) {
+				return false
+			}
+		}
+		return true
+	case "prod":
+		nonConst := 0
+		for _, a := range t.Args {
+			if a.Op == "const" {
+				if a.C.Sign() < 0 {
+					return false
+				}
+				continue
+			}
+			nonConst++
+			if !monotoneTree(a) {
+				return false
+			}
+		}
+		return nonConst <= 1
+	case "div":
+		return monotoneTree(t.Args[0]) && posConst(t.Args[1])
+	case "call":
+		switch t.Name {
+		case "Round", "RoundToEven", "Floor", "Ceil", "int", "float":
+			return len(t.Args) == 1 && monotoneTree(t.Args[0])
+		case "idiv":
+			return len(t.Args) == 2 && monotoneTree(t.Args[0]) && posConst(t.Args[1])
+		}
+	}
+	return false
 }
